@@ -170,6 +170,7 @@ theorem skip_eq_decode : ∀ (ty : Ty), SkipEq (skipP ty) (decodeP ty)
   | .str => by unfold skipP; exact skipEq_bind_pure _ _
   | .bytes => by unfold skipP; exact skipEq_bind_pure _ _
   | .box _ _ => by unfold skipP; exact skipEq_bind_pure _ _
+  | .wrap _ => by unfold skipP; exact skipEq_bind_pure _ _
   | .duration => by unfold skipP; exact skipEq_bind_pure _ _
   | .range _ => by unfold skipP; exact skipEq_bind_pure _ _
   | .bitseq _ _ => by unfold skipP; exact skipEq_bind_pure _ _
@@ -213,6 +214,7 @@ theorem fixedSize_exact : ∀ (ty : Ty) (n : Nat), encodedFixedSize ty = some n 
   | .str, _, h, _, _ => by simp [encodedFixedSize] at h
   | .bytes, _, h, _, _ => by simp [encodedFixedSize] at h
   | .box _ _, _, h, _, _ => by simp [encodedFixedSize] at h
+  | .wrap _, _, h, _, _ => by simp [encodedFixedSize] at h
   | .duration, _, h, _, _ => by simp [encodedFixedSize] at h
   | .range _, _, h, _, _ => by simp [encodedFixedSize] at h
   | .bitseq _ _, _, h, _, _ => by simp [encodedFixedSize] at h
